@@ -56,6 +56,18 @@ class IntSeq(pg.hyper.CustomHyper):
     return pg.DNA(','.join(str(r.randint(0, 9)) for _ in range(r.randint(1, 3))))
 
 
+class PSub(classes.P):
+  pass
+
+
+class PSubSub(PSub):
+  pass
+
+
+classes.CLASSES.setdefault('PSub', PSub)
+classes.CLASSES.setdefault('PSubSub', PSubSub)
+
+
 def evolve_transform(location, value, parent):
   del location, parent
   return value + 1 if isinstance(value, int) and not isinstance(value, bool) else value
@@ -82,7 +94,7 @@ def strategy(tier):
         st.just({'h': 'float'}),
         st.sampled_from([{'h': 'float'}, {'h': 'custom'}, {'h': 'custom'}, {'h': 'evolve'}]),
         st.builds(lambda h, near, n, k: {'h': h, 'near': near, 'n': n, 'k': k, 'distinct': True, 'sorted': False},
-                  st.sampled_from(['oneof', 'manyof']), st.sampled_from(['lists', 'dicts', 'nested']), st.integers(2, 3), st.integers(1, 2)),
+                  st.sampled_from(['oneof', 'manyof']), st.sampled_from(['lists', 'dicts', 'nested', 'classes']), st.integers(2, 3), st.integers(1, 2)),
         st.lists(c, min_size=1, max_size=3).map(lambda v: {'L': v}),
         st.lists(st.tuples(st.sampled_from(['k', 'm', 'a.b', 0]), c), min_size=1, max_size=3,
                  unique_by=lambda kv: str(kv[0])).map(lambda kvs: {'D': [list(kv) for kv in kvs]}),
@@ -133,12 +145,15 @@ def annotate(d, ctx=None):
     if 'near' in d:
       # candidates that are distinguishable but close: prefixes of one list, dicts with nested key sets
       n = d.get('n', 2)
-      if isinstance(n, bool) or not isinstance(n, int) or not 2 <= n <= 3 or d['near'] not in ('lists', 'dicts', 'nested'):
+      if isinstance(n, bool) or not isinstance(n, int) or not 2 <= n <= 3 or d['near'] not in ('lists', 'dicts', 'nested', 'classes'):
         raise core.InvalidCase(d)
       ctx['n'] += 1
       base = ['n%d_%d' % (ctx['n'], i) for i in range(3)]
       if d['near'] == 'lists':
         cands = [{'L': [{'const': x} for x in base[:i + 1]]} for i in range(n)]
+      elif d['near'] == 'classes':
+        # objects with equal fields of a class, its subclass and the subclass of that (the base class first)
+        cands = [{'O': c, 'a': {'x': {'const': base[0]}, 'y': {'const': base[1]}}} for c in ['P', 'PSub', 'PSubSub'][:n]]
       elif d['near'] == 'dicts':
         cands = [{'D': [[k, {'const': base[0]}] for k in ['k', 'm', 'n'][:i + 1]]} for i in range(n)]
       else:
@@ -291,7 +306,7 @@ def plain(v):
     return ('placeholder', kind)
   if isinstance(v, pg.Object):
     name = type(v).__name__
-    keys = ('x', 'y') if name == 'P' else ('i', 'l', 'f', 'a')
+    keys = ('x', 'y') if name in ('P', 'PSub', 'PSubSub') else ('i', 'l', 'f', 'a')
     return ('obj', name, {k: plain(v.sym_getattr(k)) for k in keys})
   if isinstance(v, list):
     return [plain(x) for x in v]
